@@ -51,11 +51,41 @@ Oracle (metamorphic, no expected numbers):
 Exempt: Background2D value comparison for integer input (documented: output has
 the integer dtype of the input, i.e. is rounded).
 Not enumerated (outside the property's list): float16 and bool images.
+
+ (f) LARGE REDUCTIONS (``mcphot.ref.c15_large``).  Whether a representation is
+     handled correctly can depend on the SIZE of the input: an accumulator kept
+     in the dtype of the data (a float32 running sum, an int16 sum) is exact or
+     invisible on the 41 x 47 scene and wrong by per cents on 1e6 pixels.  Full
+     product  entry x representation x condition  on one 1024 x 1000 image
+     round(1000 + 5 N(0,1)) (sum 1e9: beyond int16 / uint16, float32 ulp 64; the
+     8-bit types get the same noise on a pedestal of 100):
+       entries: the nan-statistics wrappers of photutils.utils._stats {nansum,
+         nanmean, nanmedian, nanstd, nanvar, nanmin, nanmax} x axis {None, 0, 1,
+         (0, 1)}; the 6 background and 3 background-RMS estimator classes x
+         {no clipping, sigma clipping} over the image and (no clipping) x axis
+         {0, 1}; detect_threshold {no mask, mask}; Background2D with box = image
+         / half the image x {no clipping, sigma clipping}; calc_total_error;
+         centroid_com; aperture_photometry {exact, center, subpixel},
+         ApertureStats {exact, center}, RadialProfile, CurveOfGrowth over an
+         aperture of 6.9e5 pixels; SourceCatalog over a segment of 8.8e5 pixels;
+       representations: dtype x byte order (the 17 of (a)), {Fortran, strided}
+         of float64 and of float32 (thorough: of every dtype), and for the
+         statistics wrappers Quantity of float64 / float32 (unit: data unit,
+         squared for nanvar);
+       conditions: clean; 57 NaN pixels (floating-point types; statistics,
+         estimators, detect_threshold, Background2D).
+     Oracle: every output equals the float64 C-contiguous result (tolerances
+     below); Background2D for integer input: within 2.5 (integer-typed output).
+     A sigma-clipped entry is skipped for float32 / integer input when a
+     clipping bound (plain float64 reference clipping) lies within 1e-3 of a
+     pixel value: which pixels are clipped is then not determined to float32
+     precision (tie).
 """
 import re
 
 import numpy as np
 
+from ..ref import c15_large as L
 from ..ref import registry as R
 from ..runner import Acc
 
@@ -72,7 +102,16 @@ RULE = ('full Cartesian product: every numerical registry recipe (entry points t
         'of the result) and every step output is compared with the float64 baseline (unit mixing: the steps that receive the '
         'data and the companion must raise; other unit: raise or equal the all-Jy result); one evaluation = one compared step; '
         'a step is non-trivial when the baseline step succeeded and returned at least one number (mixing: when the call '
-        'receives the companion); distinct = distinct (step label, representation, condition)')
+        'receives the companion); distinct = distinct (step label, representation, condition).  LARGE-REDUCTION family (size-'
+        'dependent representation defects: accumulators kept in the input dtype): full product of 80 entries (nan-statistics '
+        'wrappers x axis {None, 0, 1, (0,1)}; 9 background / RMS estimator classes x {no clip, sigma clip, axis 0, axis 1}; '
+        'detect_threshold x {no mask, mask}; Background2D box {image, half image} x {no clip, sigma clip}; calc_total_error; '
+        'centroid_com; aperture_photometry x 3 methods, ApertureStats x 2 methods, RadialProfile, CurveOfGrowth over a 6.9e5 '
+        'pixel aperture; SourceCatalog over a 8.8e5 pixel segment) x representation {17 dtype x byte order, Fortran / strided '
+        'float64 and float32 (thorough: every dtype), Quantity float64 / float32 for the wrappers} x condition {clean, 57 NaN '
+        'pixels (floating-point types)} on one 1024 x 1000 integer-valued image (pedestal 1000, sigma 5; 8-bit types: pedestal '
+        '100), each output compared with the float64 result; one evaluation = one compared entry, non-trivial when the '
+        'float64 baseline returned a number')
 ASSUMPTIONS = ['the scene is integer valued (|values| < 2**15) so that every float / signed type of >= 16 bit holds exactly the '
                'float64 numbers; unsigned types are compared on the scene with negative pixels clipped to 0, 8-bit types on '
                'a fainter exposure (x 0.15, rounded, within 0..127), each against a float64 baseline of the same numbers '
@@ -87,7 +126,15 @@ ASSUMPTIONS = ['the scene is integer valued (|values| < 2**15) so that every flo
                'a raised ValueError / TypeError / astropy UnitsError is a rejection; any other exception is a crash',
                'after a call on an object was rejected, later reads of that object are not judged (state after an error)',
                'an unsigned / 8-bit kernel or convolved image that cannot hold its values stays float64 (counted in the evidence)',
-               'float16 and bool images are not in the property\'s list of representations and are not enumerated']
+               'float16 and bool images are not in the property\'s list of representations and are not enumerated',
+               'large reductions: "float32 precision" of a reduction over n = 2**20 pixels means float64 or pairwise float32 '
+               'accumulation (error <= ~32 float32 roundings: 2e-6 relative), along an image axis of length L ~ 1e3 a plain '
+               'float32 running sum (<= (L-1) roundings per pass: 6e-5); float64 accumulation of a float64 image may be a '
+               'plain running sum (n roundings of 1.1e-16)',
+               'large reductions: a sigma-clipped entry whose clipping bound (float64 reference clipping, every iteration) lies '
+               'within 1e-3 of a pixel value is a tie for float32 / integer input and is skipped (counted)',
+               'large reductions: the photutils.utils._stats wrappers are internal; they are enumerated because every '
+               'background class, Background2D and detect_threshold compute through them (anchor of the property)']
 
 # -- tolerances ---------------------------------------------------------------
 # Same numbers in, same algorithm: every difference is floating-point
@@ -114,6 +161,35 @@ RTOL_FIT = 1e-9
 # (IterativePSFPhotometry y_err, f4 / big-endian f4, masked, seed 2): 1e-4.
 RTOL_F4 = 1e-5
 RTOL_F4_FIT = 1e-4
+# LARGE REDUCTIONS (family f).  n = 2**20 pixels, values ~1000 (all of one sign: the condition number of the sums is 1),
+# u32 = 2**-24 = 6.0e-8, u64 = 1.1e-16.
+#  * float32 / integer input, reduction over the image / a box / an aperture (kind 'whole'): correct handling is float64
+#    accumulation (error ~u32 from the final rounding) or numpy's pairwise float32 summation: blocks of 128 terms in 8
+#    running sums (16 roundings) + 3 + log2(n / 128) = 13 combining levels: <= 32 u32 = 1.9e-6; the two-pass variance
+#    doubles it: 3.8e-6.  RTOL_LARGE = 1e-5 of scale (= RTOL_F4; 2.6 x the worst-case bound; measured: see CALIBRATION
+#    below).  A float32 *running* sum over the image is off by 8e-3 in the
+#    mean (ulp 64 at 1e9: every addend 1000 +- 15 is rounded to 1024) and by a factor 1.9 in the standard deviation.
+#  * along one image axis (kind 'axis', L = 1024 / 1000 terms): numpy reduces over a non-contiguous axis with a plain
+#    float32 running sum per column: <= (L - 1) u32 = 6.1e-5 per pass, two passes for the variance: 1.2e-4.
+#    RTOL_LARGE_AXIS = 2.5e-4 (2 x the bound).
+#  * float64 input (big-endian / Fortran / strided / Quantity): bottleneck keeps a plain float64 running sum where numpy
+#    sums pairwise: <= n u64 = 1.2e-10 per pass (measured 1.7e-12 for nanstd): RTOL_LARGE_F8 = 1e-9.
+#  * element-wise entries (kind 'pixel'): RTOL_F4 / RTOL as on the small scene.
+# CALIBRATION (unchanged /repo, seeds 0-2, maximum over every entry and representation of the class; the 'worst:' notes
+# in the evidence of a run with VERIF_C15_CALIBRATE=1): whole 4.7e-7 (ModeEstimatorBackground, sigma clipped, big-endian
+# float32), axis 1.5e-5 (nanvar axis=0, float32), float64 3.7e-12 (nanvar, big-endian).
+RTOL_LARGE = 1e-5
+RTOL_LARGE_AXIS = 2.5e-4
+RTOL_LARGE_F8 = 1e-9
+# Background2D returns the integer dtype of an integer input (documented, the property's exception).  Two casts
+# (truncations) to the integer type: the mesh of box statistics (error in (-1, 0]), then the image interpolated from the
+# truncated mesh: the cubic-spline weights sum to 1 with sum |w| <= ~1.2, so the interpolated error is < 1.2, the second
+# truncation adds < 1: 2.5.  Measured worst case, seeds 0-2: 1.005 (a mesh of [4.99, 5.005] becomes [4, 5]).  A
+# float32 running sum over the image (Background2D computes integer images in float32) is off by 8.
+ATOL_B2D_INTEGER = 2.5
+# a clipping bound closer than this to a pixel value: the clipped set is not determined to float32 precision (the bound
+# 1000 +- 15 carries the float32 rounding 6e-5 and the error of the float32 standard deviation, 3 x 5 x 1e-5 = 1.5e-4)
+TIE_MARGIN = 1e-3
 FIT_STEPS = re.compile(r'centroid_1dg|centroid_2dg|centroid_sources\[[12]dg|find_peaks\[centroid_2dg|gaussian_f|PSFPhotometry|'
                        r'fit_2dgaussian|fit_fwhm|fwhm|Ellipse|Isophote|build_ellipse_model|EllipseFitter|centroid_win|kron|'
                        r'fluxfrac|make_kron')
@@ -186,8 +262,20 @@ def solo_reps(cq):
     return [f'{mode}:{slot}' for slot in cq.slots for mode in R.C15_SOLO]
 
 
+def large_units(tier):
+    """The large-reduction family: one unit per (entry group, batch of representations); each unit computes the float64
+    baselines it needs.  First in the plan: they are the longest units."""
+    out = []
+    for g in L.GROUPS:
+        reps = L.reps_of(g, tier)
+        nb = {'stats': 1, 'estimators': 4, 'background2d': 3, 'sums': 4}[g] * (2 if tier == 'thorough' else 1)
+        for b in range(nb):
+            out.append({'large': g, 'reps': list(reps[b::nb])})
+    return out
+
+
 def plan(tier, seed):
-    return [{'recipe': r.name, 'cond': cond} for r in numeric_recipes() for cond in conds(tier)]
+    return large_units(tier) + [{'recipe': r.name, 'cond': cond} for r in numeric_recipes() for cond in conds(tier)]
 
 
 def site_of(label, rep):
@@ -219,7 +307,7 @@ def leaves(x, path=''):
     return out
 
 
-def cmp_leaf(a, b, rtol):
+def cmp_leaf(a, b, rtol, atol=0.0):
     """None when equal, else a message.  a = baseline leaf."""
     if a is None or b is None:
         return None if (a is None and b is None) else f'{R.short(a, 60)} vs {R.short(b, 60)}'
@@ -237,7 +325,7 @@ def cmp_leaf(a, b, rtol):
     fin = np.isfinite(x)
     scale = float(np.max(np.abs(x[fin]))) if fin.any() else 1.0
     with np.errstate(all='ignore'):
-        ok = np.isclose(y, x, rtol=rtol, atol=rtol * max(scale, 1e-300), equal_nan=True)
+        ok = np.isclose(y, x, rtol=rtol, atol=max(rtol * max(scale, 1e-300), atol), equal_nan=True)
     if ok.all():
         return None
     idx = tuple(int(i) for i in np.argwhere(~ok)[0]) if x.ndim else ()
@@ -519,14 +607,152 @@ def run_solo(acc, r, cond, seed, runs, only_rep, sample):
                     break
 
 
+# -- the large-reduction family -----------------------------------------------------
+def large_rtol(entry, rep):
+    d = L.dtype_of(rep)
+    f4class = d is not None and R.DTYPE_OF_REP[d] != '>f8'
+    if entry.kind == 'pixel':
+        return RTOL_F4 if f4class else RTOL
+    if not f4class:
+        return RTOL_LARGE_F8
+    return RTOL_LARGE_AXIS if entry.kind == 'axis' else RTOL_LARGE
+
+
+def worst_rel(bl, ol):
+    """largest |difference| / scale over the numeric leaves (calibration only)"""
+    w = 0.0
+    for path, a in bl.items():
+        o = ol.get(path)
+        if isinstance(a, tuple) and a[0] == 'num' and isinstance(o, tuple) and o[0] == 'num' and a[1].shape == o[1].shape and a[1].size:
+            fin = np.isfinite(a[1]) & np.isfinite(o[1])
+            if fin.any():
+                w = max(w, float(np.max(np.abs(a[1][fin] - o[1][fin])) / max(float(np.max(np.abs(a[1][fin]))), 1e-300)))
+    return w
+
+
+def run_large(acc, group, reps, seed, only=None, sample=False):
+    """entries of ``group`` x ``reps`` x conditions, each compared with the float64 C-contiguous baseline of the same
+    image.  ``only``: (entry label, cond) for a replay."""
+    import os
+    calibrate = bool(os.environ.get('VERIF_C15_CALIBRATE'))
+    entries = [e for e in L.GROUPS[group] if only is None or e.label == only[0]]
+    base = {}          # (domain, cond) -> {label: leaves | Raised}
+    margins = {}       # (domain, cond, set) -> distance of the nearest clipping bound to a pixel value
+
+    def baseline(domain, cond):
+        if (domain, cond) not in base:
+            env = L.Env('f8', cond, seed, domain=domain)
+            out = {}
+            for e in entries:
+                if cond in L.conds_of(e, 'f8'):
+                    o = L.run_entry(e, env)
+                    out[e.label] = o if isinstance(o, R.Raised) else leaves(o)
+            base[(domain, cond)] = (out, env.data64)
+        return base[(domain, cond)]
+
+    def margin(domain, cond, name):
+        if (domain, cond, name) not in margins:
+            margins[(domain, cond, name)] = L.clip_margin(L.clip_sets(baseline(domain, cond)[1])[name]())
+        return margins[(domain, cond, name)]
+
+    for rep in reps:
+        d = L.dtype_of(rep)
+        f4class = d is not None and R.DTYPE_OF_REP[d] != '>f8'
+        integer = d in INT_REPS
+        domain = L.domain_of(rep)
+        for cond in L.CONDS:
+            if only is not None and cond != only[1]:
+                continue
+            todo = [e for e in entries if cond in L.conds_of(e, rep) and (rep not in L.QUANTITY_REPS or e.unit_power is not None)]
+            if not todo:
+                continue
+            env = L.Env(rep, cond, seed)
+            if d is not None and rep not in L.QUANTITY_REPS and env.data.dtype.str != R.DTYPE_OF_REP[d]:
+                raise AssertionError(f'large: representation {rep} not in effect ({env.data.dtype.str})')
+            bout, _ = baseline(domain, cond)
+            for e in todo:
+                case = {'family': 'large', 'group': group, 'entry': e.label, 'rep': rep, 'cond': cond}
+                bl = bout[e.label]
+                if isinstance(bl, R.Raised):
+                    acc.case(nontrivial=False)
+                    acc.skip('large: float64 baseline raises (nothing to compare)')
+                    continue
+                if f4class and any(margin(domain, cond, name) < TIE_MARGIN for name in e.clipsets):
+                    acc.skip('large: a sigma-clipping bound lies within 1e-3 of a pixel value (tie: the clipped set is not '
+                             'determined to float32 precision)')
+                    continue
+                o = L.run_entry(e, env)
+                acc.case(nontrivial=nnum(bl) > 0, key=(e.label, rep, cond) if nnum(bl) else None,
+                         sample=dict(case, status='ok' if not isinstance(o, R.Raised) else repr(o)) if (sample and e is todo[0]) else None)
+                site = site_of(e.label, 'f4' if rep == 'quantity_f4' else rep) + (':quantity' if rep == 'quantity_f4' else '')
+                if isinstance(o, R.Raised):
+                    acc.violation('repr-raises', site, case, observed=repr(o), expected='succeeds as for the float64 ndarray',
+                                  detail=f'large reduction {e.label!r} with data representation {rep!r} ({cond})')
+                    continue
+                ol = leaves(o)
+                acc.outcome((e.label, rep, cond, len(ol)))
+                if set(ol) != set(bl):
+                    acc.violation('repr-differs', site, case, observed=sorted(set(ol) ^ set(bl))[:6],
+                                  expected='same output structure as the float64 baseline', detail=f'large reduction {e.label!r}')
+                    continue
+                rtol = large_rtol(e, rep)
+                atol = ATOL_B2D_INTEGER if (e.b2d and integer) else 0.0
+                if atol:
+                    acc.counters['large: Background2D integer input judged within 2.5 (integer-typed output)'] += 1
+                if calibrate and atol:
+                    w = max([float(np.nanmax(np.abs(a[1] - ol[path][1]))) for path, a in bl.items()
+                             if isinstance(a, tuple) and a[0] == 'num' and a[1].size and a[1].shape == ol[path][1].shape] + [0.0])
+                    if w > acc.worst.get('worst:b2d-integer-abs', (0.0,))[0]:
+                        acc.worst['worst:b2d-integer-abs'] = (w, e.label, rep, cond)
+                if calibrate and not atol:
+                    cls = 'pixel' if e.kind == 'pixel' else ('float64' if not f4class else e.kind)
+                    w = worst_rel(bl, ol)
+                    key = f'worst:{cls}'
+                    if w > acc.worst.get(key, (0.0,))[0]:
+                        acc.worst[key] = (w, e.label, rep, cond)
+                for path, a in bl.items():
+                    msg = cmp_leaf(a, ol[path], rtol, atol)
+                    if msg:
+                        acc.violation('repr-differs', site, dict(case, output=path), observed=msg,
+                                      expected=f'equal to the float64 baseline within rtol {rtol:g} of scale'
+                                               + (f' or {atol:g} (integer-typed, twice truncated output)' if atol else ''),
+                                      detail=f'large reduction {e.label!r} output {path!r} over the {L.SHAPE[0]} x {L.SHAPE[1]} image '
+                                             f'(pedestal {L.PEDESTAL[domain]:g}, sigma {L.NOISE_SIGMA:g}, {cond}) with data representation {rep!r}')
+                        break
+                if rep in L.QUANTITY_REPS:
+                    want = expected_unit(None, e.unit_power)
+                    for path, v in ol.items():
+                        if not (isinstance(v, tuple) and v[0] == 'num'):
+                            continue
+                        if not same_unit(v[2], want):
+                            acc.violation('unit-wrong', site, dict(case, output=path), observed=f'unit {v[2]!r}',
+                                          expected=f'unit {want.to_string()!r}', detail=f'large reduction {e.label!r} of a Quantity in Jy')
+                            break
+                        acc.counters['unit_checked_ok'] += 1
+    for (domain, cond, name), m in sorted(margins.items()):
+        acc.counters['large: sigma-clipped pixel sets examined for ties (per unit)'] += 1
+        if m < TIE_MARGIN:
+            acc.counters[f'large: tie in pixel set {name!r} ({domain}, {cond}) (per unit)'] += 1
+
+
 def run_unit(unit, tier, seed):
     acc = Acc()
+    if 'large' in unit:
+        acc.worst = {}
+        run_large(acc, unit['large'], unit['reps'], seed, sample=True)
+        for k, v in sorted(acc.worst.items()):
+            acc.notes.append(f'{k} {v[0]:.3g} {v[1]} {v[2]} {v[3]}')
+        return acc
     run_recipe_cond(acc, R.RECIPES[unit['recipe']], unit['cond'], seed, sample=True, tier=tier)
     return acc
 
 
 def replay(case, seed):
     acc = Acc()
+    if case.get('family') == 'large':
+        acc.worst = {}
+        run_large(acc, case['group'], [case['rep']], seed, only=(case['entry'], case['cond']))
+        return acc
     run_recipe_cond(acc, R.RECIPES[case['recipe']], case['cond'], seed, only_rep=case['rep'], tier='thorough')
     return acc
 
@@ -554,4 +780,16 @@ def describe(tier, seed):
             'public_callables': cov['public_callables'],
             'uncovered': cov['uncovered'],
             'unclassified_public_callables': cov['unclassified'],
+            'large_reductions': {
+                'image_shape': list(L.SHAPE), 'pedestal_by_value_domain': dict(L.PEDESTAL), 'noise_sigma': L.NOISE_SIGMA,
+                'entries': {g: [e.label for e in es] for g, es in L.GROUPS.items()},
+                'representations': list(L.reps_of('sums', tier)), 'extra_representations_of_the_statistics_wrappers': list(L.QUANTITY_REPS),
+                'conditions': {'clean': 'every entry', 'nan': f'{len(L.NAN_PIX)} NaN pixels; floating-point representations; groups '
+                                                               'stats / estimators / background2d'},
+                'aperture': list(L.APERTURE), 'segment_pixels': int(np.zeros(L.SHAPE)[L.SEGMENT].size),
+                'tie_margin': TIE_MARGIN,
+                'tolerances': {'rtol_large (float32 / integer input, reduction over the image / box / aperture)': RTOL_LARGE,
+                               'rtol_large_axis (float32 / integer input, along one image axis)': RTOL_LARGE_AXIS,
+                               'rtol_large_f8 (float64 input in another byte order / layout)': RTOL_LARGE_F8,
+                               'atol_background2d_integer_input': ATOL_B2D_INTEGER}},
             'tolerances': {'rtol': RTOL, 'rtol_fit': RTOL_FIT, 'rtol_f4': RTOL_F4, 'rtol_f4_fit': RTOL_F4_FIT}}
